@@ -484,7 +484,9 @@ static void print_tokens(Token *tok) {
     // a different token when the output is read again.
     bool adjacent = prev && prev->file == tok->file && prev->loc + prev->len == tok->loc;
 
-    if (line > 1 && tok->at_bol)
+    // A `#` that is still here is not a directive (it came out of a
+    // macro); at the start of a line it would be read as one.
+    if (line > 1 && tok->at_bol && !equal(tok, "#"))
       fprintf(out, "\n");
     else if (tok->has_space || (prev && !adjacent))
       fprintf(out, " ");
